@@ -70,6 +70,14 @@ CLAIMED["C13"] = dict(
     note="Trusted: the brute-force one-difference test (15 lines), the lost-update model of an unsynchronised increment (DESIGN.md 3.3). Weights are compared run against run, not re-derived.",
 )
 
+CLAIMED["C07"] = dict(
+    level="exploration",
+    design="DESIGN.md 4 (C07)",
+    technique="deterministic simulation of operation histories by several tasks on the shared, deterministic, poisoning sequence pool under a seeded scheduler; immutable-string reference model with an independent complement table checked after every operation",
+    text="1-3 simulated tasks apply random histories of new / Copy / Subsequence (all windows, circular) / ReverseComplement (in place or not) / SetSequence / Write / SetQualities / SetAttribute / nested-map edit / Recycle / pool churn to their own handles while sharing the pool, whose reuse policy is drawn and whose recycled buffers are poisoned; after every operation every live handle must equal an immutable reference value (reverse complement by an independent IUPAC table, windows of x+x, mirrored qualities, transformed position-bearing annotations). The algebraic laws hold by construction of the model; the history half (no shared mutable state) is what the simulation decides.",
+    note="Trusted: the reference model (strings), the harness' complement table. The position transform of annotations is checked for linear windows and reverse complements only.",
+)
+
 PENDING = {
 }
 
